@@ -27,6 +27,16 @@ CHECKS = {
              text="Exploration. Histories with max-applications on most queues (config, template, tag), gang applications, restarts from Completing and removals; the gate is re-evaluated on the pre-step snapshot for every first allocation, counters are checked after every step."),
 }
 
+PURE_NOTE = "Trusted: the small independent reference model of this check (written from the documentation comments, three-valued where they are silent), Go runtime. The oracle judges only the inputs it generated."
+CHECKS.update({
+ "C18": dict(engine="pure", design="4/C18", note=PURE_NOTE, technique="reference-model monitor: real resources functions / quantity parsers vs an arbitrary-precision (math/big) reference on seeded operands incl. int64 extremes, nil and key-set mismatches",
+             text="Exploration. Millions of evaluations of Add/Sub/AddTo/SubFrom/Multiply/MultiplyBy/OnlyExisting variants/EliminateNegative, the fit and comparison predicates, component-wise min/max, equality variants and ParseQuantity/ParseVCore are compared with an exact reference; arguments are compared before/after every call; panics are violations."),
+ "C19": dict(engine="pure", design="4/C19", note=PURE_NOTE, technique="runtime monitor: real sortQueues/sortApplications (via verif hook) called repeatedly on the same world (Go map order permutes candidates) and judged pairwise against the policy's keys; ask list and node iterator checked against their keys after random scripts",
+             text="Exploration. Queue, application, ask and node worlds are built with the real constructors from seeded keys with many ties and near-ties; every pair the policy distinguishes must appear in that order in every call; node iteration must visit every registered node once, skip exactly the reserved ones in the unreserved view and be ordered by the score of the current utilisation."),
+ "C20": dict(engine="pure", design="4/C20", note=PURE_NOTE, technique="reference-model monitor: real ring buffer / event store / event streaming vs a list-based model by pointer identity; exhaustive enumeration of the small sub-space; concurrent stream runs (thorough: under -race)",
+             text="Exploration plus an exhaustively enumerated sub-space (reported in the evidence). Seeded add/resize/query scripts on the real ring buffer are compared with a list model (ids, ranges, bounds, recent events), event-store batches with the size in force, and subscribers of concurrent stream runs must receive a gap-free, repeat-free run of ids that ends with the last event."),
+})
+
 for k in CHECKS:
     CHECKS[k].setdefault("engine", "det")
 
@@ -67,6 +77,7 @@ def main():
         "notes": "All checks: ./vcheck Cxx --tier quick|thorough; honour VERIF_SEED; rebuild the harness against /repo's working tree with -tags verif; exit 1 + VIOLATION line only for violations not listed in known_findings.json.",
         "not_applicable": na,
     }
+    m["engines"].append({"name": "pure", "path": "harness/pure", "serves_properties": sorted(k for k, v in CHECKS.items() if v["engine"] == "pure"), "kind_free_text": "reference-model monitors: the real functions / data structures of the pure packages are executed on seeded inputs next to a small independent model; the deciding step is the comparison of what the real code did with what it may do"})
     extra = globals().get("ENGINES_EXTRA")
     if extra:
         m["engines"] += extra
